@@ -447,7 +447,8 @@ struct timespec* sentTime) {
       recvSymbol = recvSymbol == 0x00 ? ESC : SYN;
     }
     m_escape = 0;
-  } else if (!sending && recvSymbol == ESC) {
+  } else if (!sending && recvSymbol == ESC && m_state < bs_sendCmd) {
+    // start of an escape sequence (only while receiving: in a send state an unexpected symbol ends the exchange)
     m_escape = ESC;
     return result;
   }
